@@ -138,6 +138,10 @@ def subst(term, pairs):
     raise SkipCase()
 
 
+def unsupported(msg):
+    raise SkipCase()
+
+
 def ufb(name, *args):
     raise SkipCase()
 
